@@ -10,7 +10,7 @@ import (
 func rule(thorough bool) string {
 	s := "a real Smr collects for proposal 1 (view 1, child of the root): ALL arrival sequences of <= 3 vote messages over the full alphabet (every other member, the collector's own vote, a non-member, the same member re-signing, wrong-id / corrupted / key-mismatch signatures, votes for the root and for a proposal never received, messages with extra rider signatures or none) for n <= 4, all sequences of <= 4 over the reduced alphabet for n = 5 and n = 7, other collector positions; two proposals (siblings, parent/child with a justify) with all interleavings of their votes; votes before the proposal and for an orphan; validator sets that differ per view with votes declaring another view; random longer sequences for n <= 10; a case is non-trivial if it delivers a vote, distinct by op lines"
 	if thorough {
-		s += "; thorough: sequences one longer, n up to 8 exhaustive over the reduced alphabet"
+		s += "; thorough: sequences one longer, n = 6, 8 over the reduced alphabet, n = 10 with all continuations of <= 4 arrivals after three votes, 30000 random cases"
 	}
 	return s
 }
@@ -34,7 +34,18 @@ func (g *gen) generate(rng *xvlib.Rng, thorough bool) {
 	for n := 1; n <= 4; n++ {
 		g.single("single-full", n, 0, true, 3+extra)
 	}
-	g.single("single-reduced", 5, 0, false, 4)
+	g.single("single-reduced", 5, 0, false, 3+extra)
+	{
+		// n = 5 (quorum 3), one vote more: three other members, the collector, a repeat, a non-member
+		a := []string{"vote 1 1 1v", "vote 1 1 2v", "vote 1 1 3v", "vote 1 1 0v", "vote 1 1 1r", "vote 1 1 5v"}
+		sequences(a, 4+extra, func(seq []string) {
+			if len(seq) < 4+extra {
+				return
+			}
+			lines := append([]string{"reset 5 0", "prop 1 1 0 0"}, seq...)
+			g.run("single-n5", append(lines, "cert"))
+		})
+	}
 	g.single("single-reduced", 4, 2, false, 3+extra)
 	g.single("single-reduced", 5, 4, false, 3+extra)
 	g.single("single-reduced", 3, 3, false, 3+extra) // the collector is not a validator
@@ -49,8 +60,15 @@ func (g *gen) generate(rng *xvlib.Rng, thorough bool) {
 		})
 	}
 	if thorough {
-		g.single("single-reduced", 6, 0, false, 5)
-		g.single("single-reduced", 8, 1, false, 5)
+		g.single("single-reduced", 6, 0, false, 4)
+		g.single("single-reduced", 8, 1, false, 3)
+		// n = 10 (quorum 6): five other members, a repeat, the collector: every order of up to 7 arrivals would be
+		// 7^7; the last arrivals decide, so the first four are fixed
+		a := []string{"vote 1 1 1v", "vote 1 1 2v", "vote 1 1 3v", "vote 1 1 4v", "vote 1 1 5v", "vote 1 1 6v", "vote 1 1 0v", "vote 1 1 1r", "vote 1 1 10v"}
+		sequences(a, 4, func(seq []string) {
+			lines := append([]string{"reset 10 0", "prop 1 1 0 0", "vote 1 1 1v", "vote 1 1 2v", "vote 1 1 3v"}, seq...)
+			g.run("single-n10", append(lines, "cert"))
+		})
 	}
 	// B. two proposals: votes for one never count for the other
 	for n := 2; n <= 5; n++ {
